@@ -302,7 +302,7 @@ def parseOps (s : String) : Option (List Op) :=
   if s == "-" then some [] else
   -- `D` (date_now) and `U:<text>` (user_agent) do not touch mailboxes or the envelope: the header section they lead
   -- to is judged by the counts and the line rules below
-  ((s.splitOn ",").filter fun op => op != "D" && !op.startsWith "U:" && !op.startsWith "Z:").mapM fun op =>
+  ((s.splitOn ",").filter fun op => op != "D" && op != "W" && !op.startsWith "U:" && !op.startsWith "Z:").mapM fun op =>
     match op.splitOn ":" with
     | ["K"] => some .keepBcc
     | ["E", f, to] => do
